@@ -8,6 +8,7 @@ are unbound when read; names with a unique database entry must be bound, ambiguo
 been imported, and no top-level import whose name is never read may remain."""
 import ast
 import json
+import os
 
 from . import common as cm
 from . import c04_s2s as S
@@ -136,7 +137,7 @@ WITNESSES = [
     {"kind": "tidy", "stream": "witness", "w": "F35", "src": "import qq\nqq\n", "db": DB_EXEC_MAND2,
      "flags": {"add_missing": True, "remove_unused": True, "add_mandatory": True}, "params": None},
     # F23: unused import in a block that starts on the line where the previous block's text ends
-    {"kind": "tidy", "stream": "witness", "w": "F23", "src": "import qq\nv1 = 1; import qq.zz\nqq\n", "db": DB_EXEC,
+    {"kind": "tidy", "stream": "witness", "w": "F23", "src": "import qq\nv1 = 1; import zz\nqq\n", "db": DB_EXEC,
      "flags": {"add_missing": True, "remove_unused": True, "add_mandatory": False}, "params": None},
 ]
 
@@ -361,7 +362,7 @@ def check_cases(ctx, cases, tag="tidy"):
 
 
 def run(ctx):
-    n = 500 if ctx.quick else 20000
+    n = int(os.environ.get("VERIF_N", 800 if ctx.quick else 20000))
     ctx.coverage["rule"] = ("executable generated modules (prologues, imports before / between / after uses, `;` lines, defs, "
                             "classes, multi-line expressions) x databases over a synthetic universe (unique / ambiguous / absent / "
                             "dotted entries / aliases / mandatory __future__) x flag combinations (10%) x __init__.py/.pyflyby paths (10%); "
